@@ -292,9 +292,17 @@ void ICMPv6::write_serialization(uint8_t* buffer, uint32_t total_sz) {
     // If extensions are allowed and we have to set the length field
     if (are_extensions_allowed()) {
         uint32_t length_value = get_adjusted_inner_pdu_size();
-        // If the next pdu size is greater than 128, we are forced to set the length field
-        if (length() != 0 || length_value > 128) {
-            if (length_value > 0) {
+        // Without extensions nothing pads the next pdu to a 64 bit boundary: the 
+        // length field can only be used when no padding is needed
+        if (!has_extensions() && inner_pdu() && length_value != inner_pdu()->size()) {
+            header_.rfc4884.length = 0;
+        }
+        // If we have extensions and the next pdu size is greater than 128, we are 
+        // forced to set the length field
+        else if (length() != 0 || (has_extensions() && length_value > 128)) {
+            // If we have extensions, we'll have at least 128 bytes.
+            // Otherwise, just use the length 
+            if (length_value > 0 && has_extensions()) {
                 length_value = (length_value > 128U) ? length_value : 128U;
             }
             // This field uses 64 bit words as the unit
